@@ -172,7 +172,10 @@ Definition lsample (rnd : nat -> nat -> nat -> R) (init0 : list V) (ns nb t0 : n
       let cur1 := last_or cur0 (fst w) in
       let s := lsweeps rnd ns (t0 + nb) cur1 in
       let old := match l_samples st with Some ss => ss | None => [] end in
-      LOk (mkL (Some (old ++ fst s)) (Some (fst w))) (snd w ++ snd s)
+      (* after /repo a931127 a later call (necessarily nb = 0) keeps the warm-up record of the first call; before it
+         the record was rebound to the (empty) warm-up of the current call *)
+      let warm' := match l_warm st with Some w0 => w0 | None => fst w end in
+      LOk (mkL (Some (old ++ fst s)) (Some warm')) (snd w ++ snd s)
   end.
 End Legacy.
 Arguments mkL {V}. Arguments l_samples {V}. Arguments l_warm {V}.
